@@ -127,7 +127,24 @@ def build(spec):
         el.pre.loc[j, ["baseline_turnout", "baseline_dem", "baseline_gop"]] = [5_000_000, 2_500_000, 2_400_000]
     if "unit" not in call["aggregates"]:
         call["aggregates"].append("unit")
+    if i % 4 == 3:
+        # primary-style config: several estimands (new candidates) point at ONE baseline column
+        pointer = {"turnout": "turnout", "dem": "dem", "gop": "gop", "cand_a": "dem", "cand_b": "dem", "cand_c": "gop",
+                   "cand_d": "dem"}
+        el.config[el.election_id][0]["baseline_pointer"] = pointer
+        share = float(rng.uniform(0.2, 0.8))
+        feed["results_cand_a"] = np.floor(feed["results_dem"] * share)
+        feed["results_cand_b"] = feed["results_dem"] - feed["results_cand_a"]
+        feed["results_cand_c"] = feed["results_gop"]
+        feed["results_cand_d"] = np.floor(feed["results_dem"] * 0.5)
+        pool = ["cand_a", "cand_b", "cand_c", "cand_d", "turnout"]
+        k = int(rng.integers(2, 5))
+        call["estimands"] = [pool[j] for j in rng.permutation(len(pool))[:k]]
     return el, feed, status, call
+
+
+def pointer_of(el, e):
+    return el.config[el.election_id][0].get("baseline_pointer", {}).get(e, e)
 
 
 def weighted_median_interval(r, w):
@@ -166,7 +183,7 @@ def checker(el, feed, call, res, client):
         ws, rs = [], []
         integral = True
         for u in rep:
-            b = float(base[u["geographic_unit_fips"]][f"baseline_{e}"])
+            b = float(base[u["geographic_unit_fips"]][f"baseline_{pointer_of(el, e)}"])
             w = b + 1.0
             if w != int(w):
                 integral = False
@@ -186,7 +203,7 @@ def checker(el, feed, call, res, client):
         m = np.float64(lo)
         floored = unfloored = 0
         for u in non:
-            w = np.float64(float(base[u["geographic_unit_fips"]][f"baseline_{e}"]) + 1.0)
+            w = np.float64(float(base[u["geographic_unit_fips"]][f"baseline_{pointer_of(el, e)}"]) + 1.0)
             partial = np.float64(u[f"results_{e}"])
             raw = m * w + w
             want = float(np.round(np.maximum(raw, partial)))
@@ -238,6 +255,8 @@ def run_case(spec, inputs=None):
     out["counters"]["runs_completed"] = 1
     out["counters"][f"runs_{call['pi_method']}"] = 1
     out["nontrivial"] = bool(cnt.get("estimands_with_floored_and_unfloored"))
+    if any(pointer_of(el, e) != e for e in call["estimands"]):
+        out["counters"]["runs_with_shared_baseline_pointer"] = 1
     n = len(feed)
     out["sig"] = [call["pi_method"], el.meta["n_states"], call["estimands"], min(n // 50, 5), bool(el.meta["equal_baseline"]),
                   call["percent_reporting_threshold"], call["handle_unreporting"]]
